@@ -2,7 +2,6 @@
    (Sub-decoders owned by other properties are total functions here by construction; their own
    no-panic theorems live with C05/C06/C07.) *)
 Require Import PG.Base.Bytes PG.Base.GoSlice PG.Base.Value PG.C04.Lib PG.C04.Model PG.C04.Spec PG.C04.LibProofs.
-Set Default Timeout 120.
 
 Definition minlen (k : kind) : Z :=
   match k with
@@ -159,10 +158,13 @@ Section P.
     destruct (bit _ 0); [discriminate|].
     destruct (range_elem oid) as [[eo size]|] eqn:RE; [|destruct (oid =? 3906); discriminate].
     assert (SZ : size = 4 \/ size = 8).
-    { unfold range_elem in RE.
-      destruct (oid =? 3904); [idtac "RE"; match type of RE with ?T => idtac T end; injection RE as H1 H2; lia|]. destruct (oid =? 3926); [injection RE as H1 H2; lia|].
-      destruct (oid =? 3912); [injection RE as H1 H2; lia|]. destruct (oid =? 3908); [injection RE as H1 H2; lia|].
-      destruct (oid =? 3910); [injection RE as H1 H2; lia|]. discriminate. }
+    { revert RE. unfold range_elem.
+      destruct (oid =? 3904). { intros RE; injection RE as H1 H2; lia. }
+      destruct (oid =? 3926). { intros RE; injection RE as H1 H2; lia. }
+      destruct (oid =? 3912). { intros RE; injection RE as H1 H2; lia. }
+      destruct (oid =? 3908). { intros RE; injection RE as H1 H2; lia. }
+      destruct (oid =? 3910). { intros RE; injection RE as H1 H2; lia. }
+      intros RE; discriminate RE. }
     cbv zeta.
     assert (EL : forall sl o, DecodeType_elem fmt_g fmt_money to_valid_utf8 json_unmarshal DecodeNumeric jsonb_branch decodeArray sl o <> Panic).
     { intros sl o. apply DecodeType_gen_np. discriminate. }
@@ -176,7 +178,7 @@ Section P.
                        (bit (byte_at (vis s) (len s - 1)) 3) (bit (byte_at (vis s) (len s - 1)) 4) lb (fmt_v v))
        else Ok (range_render (bit (byte_at (vis s) (len s - 1)) 1) (bit (byte_at (vis s) (len s - 1)) 2)
                        (bit (byte_at (vis s) (len s - 1)) 3) (bit (byte_at (vis s) (len s - 1)) 4) lb [])) <> Panic).
-    { intros lb offset Ho. destruct (negb _); [|discriminate]. cbv zeta.
+    { intros lb offset Ho. destruct (negb (bit (byte_at (vis s) (len s - 1)) 4)); [|discriminate]. cbv zeta.
       assert (AL : offset <= (if size >? 1 then go_align (offset + 4) size - 4 else offset)).
       { destruct SZ as [-> | ->]; cbn [Z.gtb Z.compare Pos.compare Pos.compare_cont].
         - rewrite go_align_4 by lia. pose proof (align_ge (offset + 4) 4 ltac:(lia)). lia.
@@ -184,7 +186,7 @@ Section P.
       set (o' := if size >? 1 then go_align (offset + 4) size - 4 else offset) in *.
       destruct (o' + size >? len s - 1) eqn:G; [discriminate|].
       np_slice. specialize (EL r eo). destruct (DecodeType_elem _ _ _ _ _ _ _ r eo); [discriminate|congruence]. }
-    destruct (negb _).
+    destruct (negb (bit (byte_at (vis s) (len s - 1)) 3)).
     - destruct (4 + size >? len s - 1) eqn:G; [discriminate|].
       np_slice. pose proof (EL r eo) as ELr. destruct (DecodeType_elem _ _ _ _ _ _ _ r eo); [|congruence]. cbn [bind].
       apply UP. lia.
